@@ -4,7 +4,38 @@ import "strings"
 
 var specs = map[string]*Spec{}
 
-func reg(s *Spec) { specs[s.ID] = s }
+func reg(s *Spec) {
+	if bb, ok := tunnelBB[s.ID]; ok {
+		// second line for the tunnel properties: histories from the real constructor on, written
+		// against the exported API only (harness/knx/zz_verif_tunnel.go)
+		q, t := s.Quick, s.Thorough
+		add := func(base []Inst, thorough bool) []Inst {
+			for _, a := range bb {
+				ctx := 2
+				if a[1] == 2 && !thorough {
+					ctx = 1
+				}
+				base = append(base, Inst{Pkg: "knx", Fn: "HarnessTunnelBB", Args: []int64{a[0], a[1], a[2]}, Ctx: ctx, MaxSched: 30000, NoNative: true,
+					Note: "black box: real NewTunnel on the redirected socket against a scripted gateway (0 traffic+Close, 1 rejected Send, 2 heartbeat failure and reconnect)"})
+			}
+			return base
+		}
+		s.Quick = func(l *loaded) []Inst { return add(q(l), false) }
+		s.Thorough = func(l *loaded) []Inst { return add(t(l), true) }
+		s.Covers = append(s.Covers, "BB.end")
+		s.Bounds += "; black-box histories from the real constructor NewTunnel on (exported API only, channels symbolic): connect, Sends (one rejected by an error-status acknowledgement), inbound requests incl. a repetition, unanswered heartbeats followed by a reconnect, Close twice - the clauses of this property asserted on what the scripted gateway saw, context bound 2 (reconnect history: 1 in the quick tier)"
+	}
+	specs[s.ID] = s
+}
+
+// tunnelBB: property -> {tcp, scenario, focus} instances of HarnessTunnelBB.
+var tunnelBB = map[string][][3]int64{
+	"C03": {{0, 0, 3}, {0, 1, 3}, {0, 2, 3}, {1, 0, 3}},
+	"C04": {{0, 0, 4}, {0, 2, 4}, {1, 0, 4}},
+	"C05": {{0, 1, 5}},
+	"C09": {{0, 2, 9}},
+	"C10": {{0, 0, 10}, {1, 0, 10}},
+}
 
 func init() {
 	reg(&Spec{
@@ -602,7 +633,7 @@ func init() {
 		if thorough {
 			ctx = 3
 		}
-		for sc := int64(0); sc <= 3; sc++ {
+		for sc := int64(0); sc <= 4; sc++ {
 			out = append(out, Inst{Pkg: "knx", Fn: "HarnessC14Run", Args: []int64{sc}, Ctx: ctx, RandChoice: true, MaxSched: 20000, Note: "real serve goroutine"})
 		}
 		return out
@@ -682,6 +713,7 @@ func init() {
 					out = append(out, Inst{Pkg: "knx", Fn: "HarnessC09Epoch", Args: []int64{hb, hm, rc}, Ctx: ctx, MaxSched: 20000})
 				}
 			}
+			out = append(out, Inst{Pkg: "knx", Fn: "HarnessC09Epoch", Args: []int64{hb, 5, 0}, Ctx: ctx, MaxSched: 20000, Note: "first heartbeat answered twice, then silence: the stale duplicate must not satisfy the next heartbeat"})
 		}
 		return out
 	}
@@ -691,7 +723,7 @@ func init() {
 		Quick:    func(l *loaded) []Inst { return c09(false) },
 		Thorough: func(l *loaded) []Inst { return c09(true) },
 		Covers:   []string{"C09.cs.answered", "C09.cs.failed", "C09.dispatch.disconnect_request", "C09.dispatch.disconnect_response", "C09.dispatch.ignored", "C09.epoch.healthy", "C09.epoch.failed", "C09.epoch.alive", "C09.epoch.terminated", "C09.parked.end", "C09.across.end", "C09.traffic.end", "C09.relay.delivered"},
-		Bounds:   "one real connection-state exchange from an arbitrary channel against K<=3 (thorough 4) environment events (silence, resend interval passes, status with all 256 values symbolic, channel closed); the real process() dispatch on one frame of each kind with a symbolic channel; bounded runs of the real serve() goroutine against a gateway goroutine over two epochs: heartbeat interval shorter (3.3 s) and longer (7.3 s) than the 5.1 s response timeout, heartbeat answered / unanswered / error status (symbolic) / foreign channel / disconnect request, reconnect accepted (new channel symbolic) / busy then accepted / refused (status symbolic) / unanswered; initial channel and send counter symbolic; telegrams parked for an absent reader across a reconnect; a Send waiting behind a pending Send while the gateway drops and re-establishes the connection (channel/counter pair must be consistent); heartbeats under steady inbound traffic; context bound 2 (thorough 3)",
+		Bounds:   "one real connection-state exchange from an arbitrary channel against K<=3 (thorough 4) environment events (silence, resend interval passes, status with all 256 values symbolic, channel closed); the real process() dispatch on one frame of each kind with a symbolic channel; bounded runs of the real serve() goroutine against a gateway goroutine over two epochs: heartbeat interval shorter (3.3 s) and longer (7.3 s) than the 5.1 s response timeout, heartbeat answered / unanswered / error status (symbolic) / foreign channel / disconnect request / first one answered twice and none afterwards, reconnect accepted (new channel symbolic) / busy then accepted / refused (status symbolic) / unanswered; initial channel and send counter symbolic; telegrams parked for an absent reader across a reconnect; a Send waiting behind a pending Send while the gateway drops and re-establishes the connection (channel/counter pair must be consistent); heartbeats under steady inbound traffic; context bound 2 (thorough 3)",
 		Outside:  "runs of 3..5 epochs (an epoch change is covered as such; serve() keeps no state across epochs but the Tunnel fields checked here); interval values other than the two configurations; real-time jitter",
 		Assume:   []string{"timers on the virtual clock; interval values chosen so that few timers expire at the same instant"},
 	})
